@@ -10,10 +10,12 @@ package connmgr
 // in /verif/coq/c14/Spec.v.
 
 import (
+	"bytes"
 	"context"
 	"fmt"
 	"runtime"
 	"sort"
+	"strings"
 	"sync"
 	"testing"
 	"testing/synctest"
@@ -86,6 +88,10 @@ func (c *c14Conn) Close() error                   { c.rec.add(c.p, c.c); return 
 func (c *c14Conn) IsClosed() bool                 { return false }
 func (c *c14Conn) CloseWithError(network.ConnErrorCode) error {
 	c.rec.add(c.p, c.c)
+	if c.w != nil && c.w.ov != nil {
+		c.w.ov.noteClose(c.p, c.c)
+		return nil
+	}
 	// hook point 2: the selection is complete, the closes are under way
 	if c.w != nil && c.w.hookArmed && c.w.hookPoint == 2 {
 		c.w.tryHook()
@@ -95,6 +101,9 @@ func (c *c14Conn) CloseWithError(network.ConnErrorCode) error {
 func (c *c14Conn) Stat() network.ConnStats {
 	// the only method the trim calls on a connection between its candidate
 	// snapshot and its selection loop (from the sort's comparator)
+	if c.w != nil && c.w.ov != nil {
+		c.w.ov.statHook()
+	}
 	if c.w != nil && c.w.hookArmed && c.w.hookPoint == 1 {
 		c.w.tryHook()
 	}
@@ -169,10 +178,14 @@ type c14World struct {
 	hookPruned           []int64     // hook point 2: present before the trim, absent when the hook fired
 	duringAt             int     // index in items of the during-trim event (-1 = none)
 	duringEvent          []int64 // NS script-words.. obs
+	// overlap stream (two trims in flight): mock clock, no synctest bubble
+	ov       *c14Ovl
+	ovlAt    int     // index in items of the overlap event (-1 = none)
+	ovlEvent []int64
 }
 
 func c14New(cfg c14Cfg, r *verifh.Rand, out *verifh.Out) *c14World {
-	w := &c14World{cfg: cfg, out: out, rec: &c14Rec{closed: map[[2]int]int{}}, duringAt: -1}
+	w := &c14World{cfg: cfg, out: out, rec: &c14Rec{closed: map[[2]int]int{}}, duringAt: -1, ovlAt: -1}
 	for p := 0; p < c14NP; p++ {
 		w.ids[p] = c14PeerID(p)
 		for c := 0; c < c14NC; c++ {
@@ -281,7 +294,7 @@ func (w *c14World) cover(n string) {
 func (w *c14World) exec(o c14Op) {
 	w.lastAcc = 0
 	w.apply(o)
-	if !w.stalled {
+	if !w.stalled && w.ov == nil {
 		synctest.Wait()
 	}
 	if o.kind == 14 {
@@ -393,6 +406,18 @@ func (w *c14World) execDuringAt(script []c14Op, point int) {
 // during-trim event).
 func (w *c14World) caseLine() []int64 {
 	line := append([]int64{}, w.line...)
+	if w.ovlAt >= 0 {
+		line[0] = 3
+		line = append(line, int64(w.ovlAt))
+		for _, it := range w.items[:w.ovlAt] {
+			line = append(line, it...)
+		}
+		line = append(line, w.ovlEvent...)
+		for _, it := range w.items[w.ovlAt:] {
+			line = append(line, it...)
+		}
+		return line
+	}
 	if w.duringAt < 0 {
 		for _, it := range w.items {
 			line = append(line, it...)
@@ -521,6 +546,11 @@ func (w *c14World) apply(o c14Op) {
 			}
 		}
 	case 11:
+		if w.ov != nil {
+			w.ov.mock.Add(time.Duration(o.a) * c14Unit)
+			w.now += o.a
+			return
+		}
 		before := w.values()
 		time.Sleep(time.Duration(o.a) * c14Unit)
 		synctest.Wait()
@@ -1306,6 +1336,549 @@ func c14ConcurrentCase(out *verifh.Out, r *verifh.Rand) {
 	out.Case(line)
 }
 
+
+// ---- OVERLAP stream: the background loop's trim() (no trimMutex) in flight
+// together with a TrimOpenConns or a ForceTrim, on the real manager -----------
+//
+// The manager runs on a mock clock; the background trim is triggered by
+// advancing the clock to the loop's next tick (connCount >= highWater).  The
+// interleaving is made deterministic with the manager's own locks and by
+// looking at where the two trim goroutines are (runtime.Stack):
+//   1. the harness holds segments.bucketsMu; trim A is started and runs until
+//      its sort's first comparison waits for bucketsMu: its candidate snapshot
+//      is complete and it holds no segment lock;
+//   2. the clock is advanced to the tick; the background goroutine runs trim
+//      B up to the same point;
+//   3. script 1 runs (both snapshots complete, no selection started);
+//   4. bucketsMu is released.  The first trim that calls Stat() on a fake
+//      connection (comparison of two tied candidates) is X; it goes on at
+//      once.  The other trim, Y, is parked at its first Stat() (inside its
+//      sort, holding the two segments it compares); X's selection runs until
+//      it finishes or needs one of those two segments;
+//   5. script 2 runs (on other segments), then Y is released and both finish.
+// Every CloseWithError is attributed to the goroutine that called it.
+const c14OvlSilence = 1000 // units; the loop ticks at multiples of it
+
+type c14Ovl struct {
+	mock *clock.Mock
+	mu   sync.Mutex
+	park bool
+	seen map[string]bool
+	rel  map[string]chan struct{}
+	parked chan string
+	closedBy map[string][][2]int
+}
+
+func c14Gid() string {
+	b := make([]byte, 64)
+	b = b[:runtime.Stack(b, false)]
+	f := bytes.Fields(b)
+	if len(f) < 2 {
+		return "?"
+	}
+	return string(f[1])
+}
+
+// c14Goroutine returns the header state and the stack of the first goroutine
+// selected by pick (by id, or by a function name on its stack)
+func c14Goroutine(id, fn string) (found bool, waitsMutex bool, stack string) {
+	buf := make([]byte, 1<<20)
+	buf = buf[:runtime.Stack(buf, true)]
+	for _, g := range strings.Split(string(buf), "\n\n") {
+		nl := strings.IndexByte(g, '\n')
+		if nl < 0 {
+			continue
+		}
+		head := g[:nl]
+		if id != "" && !strings.HasPrefix(head, "goroutine "+id+" ") {
+			continue
+		}
+		if fn != "" && !strings.Contains(g, fn) {
+			continue
+		}
+		return true, strings.Contains(head, "[sync.Mutex.Lock") || strings.Contains(head, "[semacquire"), g
+	}
+	return false, false, ""
+}
+
+func (ov *c14Ovl) noteClose(p, c int) {
+	g := c14Gid()
+	ov.mu.Lock()
+	ov.closedBy[g] = append(ov.closedBy[g], [2]int{p, c})
+	ov.mu.Unlock()
+}
+
+func (ov *c14Ovl) statHook() {
+	ov.mu.Lock()
+	if !ov.park {
+		ov.mu.Unlock()
+		return
+	}
+	g := c14Gid()
+	if ov.seen[g] {
+		ov.mu.Unlock()
+		return
+	}
+	ov.seen[g] = true
+	ch := make(chan struct{})
+	ov.rel[g] = ch
+	ov.mu.Unlock()
+	ov.parked <- g
+	<-ch
+}
+
+func (ov *c14Ovl) release(g string) {
+	ov.mu.Lock()
+	ch := ov.rel[g]
+	delete(ov.rel, g)
+	ov.mu.Unlock()
+	if ch != nil {
+		close(ch)
+	}
+}
+
+func c14NewOvl(cfg c14Cfg, r *verifh.Rand, out *verifh.Out) *c14World {
+	w := &c14World{cfg: cfg, out: out, rec: &c14Rec{closed: map[[2]int]int{}}, duringAt: -1, ovlAt: -1}
+	w.ov = &c14Ovl{mock: clock.NewMock(), seen: map[string]bool{}, rel: map[string]chan struct{}{},
+		parked: make(chan string, 4), closedBy: map[string][][2]int{}}
+	for p := 0; p < c14NP; p++ {
+		w.ids[p] = c14PeerID(p)
+		for c := 0; c < c14NC; c++ {
+			// deterministic attributes (a replay must see the same tie-breaks)
+			dir := network.DirOutbound
+			if (p+c)%4 == 0 {
+				dir = network.DirInbound
+			}
+			w.conns[p][c] = &c14Conn{p: p, c: c, id: w.ids[p], dir: dir, streams: (p*7 + c*3) % 2, rec: w.rec, w: w,
+				addr: ma.StringCast(fmt.Sprintf("/ip4/10.0.%d.%d/tcp/4001", p, c))}
+		}
+	}
+	cm, err := NewConnManager(int(cfg.low), int(cfg.high),
+		WithGracePeriod(time.Duration(cfg.grace)*c14Unit),
+		WithSilencePeriod(c14OvlSilence*c14Unit),
+		WithClock(w.ov.mock),
+		DecayerConfig(&DecayerCfg{Resolution: time.Duration(cfg.res) * c14Unit}))
+	if err != nil {
+		panic(err)
+	}
+	w.cm = cm
+	// the background loop creates its ticker on the mock clock when it starts:
+	// the clock must not move before that
+	c14Spin("the background loop in its select", func() bool {
+		found, _, st := c14Goroutine("", "(*BasicConnMgr).background")
+		return found && strings.Contains(st[:strings.IndexByte(st, '\n')+1], "[select")
+	})
+	w.line = []int64{0, c14NP, cfg.low, cfg.high, cfg.grace, cfg.res, 0}
+	return w
+}
+
+// c14Spin waits for cond (the guard only turns a stuck protocol into a test failure)
+func c14Spin(what string, cond func() bool) {
+	start := time.Now()
+	for n := 0; !cond(); n++ {
+		runtime.Gosched()
+		if n%1024 == 1023 && time.Since(start) > 20*time.Second {
+			buf := make([]byte, 1<<20)
+			buf = buf[:runtime.Stack(buf, true)]
+			panic("c14 overlap protocol stuck waiting for " + what + "\n" + string(buf))
+		}
+	}
+}
+
+func c14TrimBusy(id, fn string) bool {
+	found, _, st := c14Goroutine(id, fn)
+	return found && (strings.Contains(st, ".getConnsToClose") || strings.Contains(st, ".trim(") || strings.Contains(st, ".ForceTrim("))
+}
+
+// will a trim issued now reach its sort with at least one comparison?
+func (w *c14World) ovlReachesSort(force bool, at time.Time) bool {
+	cm := w.cm
+	count := int(cm.connCount.Load())
+	if force {
+		if count-cm.cfg.lowWater < 0 {
+			return false
+		}
+	} else if cm.cfg.lowWater == 0 || cm.cfg.highWater == 0 || count <= cm.cfg.lowWater {
+		return false
+	}
+	gs := at.Add(-cm.cfg.gracePeriod)
+	n, nc := 0, 0
+	for p := 0; p < c14NP; p++ {
+		seg := cm.segments.get(w.ids[p])
+		seg.Lock()
+		inf, ok := seg.peers[w.ids[p]]
+		if ok && !w.isProt(p) && (force || !inf.firstSeen.After(gs)) {
+			n++
+			nc += len(inf.conns)
+		}
+		seg.Unlock()
+	}
+	return n >= 2 && (force || nc >= cm.cfg.lowWater)
+}
+
+// ovlScriptOp applies a script op unless its peer's segment is held by a parked trim
+func (w *c14World) ovlScript(script []c14Op) (done []c14Op) {
+	for _, o := range script {
+		if o.a < 0 || o.a >= c14NP {
+			continue
+		}
+		if o.kind == 9 || o.kind == 10 {
+			if !w.cm.plk.TryLock() {
+				w.cover("overlap.script_op_skipped_plk_held")
+				continue
+			}
+			w.cm.plk.Unlock()
+		} else {
+			seg := w.cm.segments.get(w.ids[o.a])
+			if !seg.TryLock() {
+				w.cover("overlap.script_op_skipped_segment_held")
+				continue
+			}
+			seg.Unlock()
+		}
+		w.apply(o)
+		done = append(done, o)
+	}
+	return
+}
+
+// runOverlap: see the protocol above.  Returns false (nothing executed) when
+// one of the two trims would not reach its sort.
+func (w *c14World) runOverlap(akind int64, s1, s2 []c14Op) bool {
+	cm, ov := w.cm, w.ov
+	force := akind == 13
+	dt := c14OvlSilence - w.now%c14OvlSilence
+	now := ov.mock.Now()
+	if int(cm.connCount.Load()) < cm.cfg.highWater || !w.ovlReachesSort(force, now) ||
+		!w.ovlReachesSort(false, now.Add(time.Duration(dt)*c14Unit)) {
+		w.cover("overlap.skipped_a_trim_would_not_reach_its_sort")
+		return false
+	}
+	_, _, bst := c14Goroutine("", "(*BasicConnMgr).background")
+	gidB := ""
+	if f := strings.Fields(bst); len(f) > 1 {
+		gidB = f[1]
+	}
+	if gidB == "" {
+		w.cover("overlap.skipped_no_background_goroutine")
+		return false
+	}
+	w.rec.take()
+	cm.segments.bucketsMu.Lock()
+	gidCh := make(chan string, 1)
+	doneA := make(chan struct{})
+	go func() {
+		gidCh <- c14Gid()
+		if force {
+			cm.ForceTrim()
+		} else {
+			cm.TrimOpenConns(context.Background())
+		}
+		close(doneA)
+	}()
+	gidA := <-gidCh
+	atLever := func(id string) bool {
+		found, wm, st := c14Goroutine(id, "")
+		return found && wm && strings.Contains(st, "SortByValueAndStreams")
+	}
+	c14Spin("trim A at its sort", func() bool { return atLever(gidA) })
+	ov.mock.Add(time.Duration(dt) * c14Unit)
+	w.now += dt
+	c14Spin("the background trim at its sort", func() bool { return atLever(gidB) })
+	w.cover("overlap.both_snapshots_complete_before_any_selection")
+	s1 = w.ovlScript(s1)
+	var present [c14NP]bool
+	for p := 0; p < c14NP; p++ {
+		present[p] = cm.GetTagInfo(w.ids[p]) != nil
+	}
+	ov.mu.Lock()
+	ov.park = true
+	ov.seen = map[string]bool{}
+	ov.mu.Unlock()
+	cm.segments.bucketsMu.Unlock()
+	finA := func() bool {
+		select {
+		case <-doneA:
+			return true
+		default:
+			return false
+		}
+	}
+	finB := func() bool { return !c14TrimBusy(gidB, "") }
+	fin := func(g string) bool {
+		if g == gidA {
+			return finA()
+		}
+		return finB()
+	}
+	other := func(g string) string {
+		if g == gidA {
+			return gidB
+		}
+		return gidA
+	}
+	gX, gY, yParked, xInSort := "", "", false, false
+	c14Spin("a parked trim or both finished", func() bool {
+		select {
+		case g := <-ov.parked:
+			gX = g
+		default:
+		}
+		return gX != "" || (finA() && finB())
+	})
+	if gX != "" {
+		ov.release(gX)
+		gY = other(gX)
+		c14Spin("the second trim parked or finished", func() bool {
+			select {
+			case <-ov.parked:
+				yParked = true
+			default:
+			}
+			return yParked || fin(gY)
+		})
+		// X goes as far as it can
+		c14Spin("the first trim finished or waiting for a segment", func() bool {
+			if fin(gX) {
+				return true
+			}
+			found, wm, st := c14Goroutine(gX, "")
+			if yParked && found && wm && strings.Contains(st, ".getConnsToClose") && !strings.Contains(st, "countPeers") {
+				xInSort = strings.Contains(st, "SortByValueAndStreams")
+				return true
+			}
+			return false
+		})
+	} else {
+		gX, gY = gidA, gidB
+		w.cover("overlap.no_tied_comparison_both_trims_ran_through")
+	}
+	var pruned, locked []int64
+	for p := 0; p < c14NP; p++ {
+		seg := cm.segments.get(w.ids[p])
+		if !seg.TryLock() {
+			locked = append(locked, int64(p))
+			continue
+		}
+		_, ok := seg.peers[w.ids[p]]
+		seg.Unlock()
+		if present[p] && !ok {
+			pruned = append(pruned, int64(p))
+		}
+	}
+	if xInSort {
+		// the first trim's sort itself needs a segment the second holds: none of its selection ran
+		locked = locked[:0]
+		for p := 0; p < c14NP; p++ {
+			locked = append(locked, int64(p))
+		}
+		w.cover("overlap.first_trim_still_sorting_at_script2")
+	}
+	if yParked {
+		w.cover("overlap.second_trim_parked_in_its_sort_while_first_selects")
+		if fin(gX) {
+			w.cover("overlap.first_trim_finished_before_script2")
+		} else {
+			w.cover("overlap.first_trim_waits_for_a_segment_of_the_second")
+		}
+	}
+	s2 = w.ovlScript(s2)
+	ov.mu.Lock()
+	ov.park = false
+	ov.mu.Unlock()
+	if yParked {
+		ov.release(gY)
+	}
+	c14Spin("both trims finished", func() bool { return finA() && finB() })
+	// the event
+	w.ovlAt = len(w.items)
+	xa := int64(0)
+	if gX == gidA {
+		xa = 1
+	}
+	ev := []int64{akind, dt, xa, int64(len(s1))}
+	for _, o := range s1 {
+		ev = append(ev, o.words()...)
+	}
+	ev = append(ev, int64(len(pruned)))
+	ev = append(ev, pruned...)
+	ev = append(ev, int64(len(locked)))
+	ev = append(ev, locked...)
+	ev = append(ev, int64(len(s2)))
+	for _, o := range s2 {
+		ev = append(ev, o.words()...)
+	}
+	ev = append(ev, w.observe(0)...)
+	ov.mu.Lock()
+	for _, g := range []string{gidA, gidB} {
+		cl := ov.closedBy[g]
+		sort.Slice(cl, func(i, j int) bool {
+			if cl[i][0] != cl[j][0] {
+				return cl[i][0] < cl[j][0]
+			}
+			return cl[i][1] < cl[j][1]
+		})
+		ev = append(ev, int64(len(cl)))
+		for _, pc := range cl {
+			ev = append(ev, int64(pc[0]), int64(pc[1]))
+		}
+		if len(cl) > 0 {
+			if g == gidA {
+				w.cover(fmt.Sprintf("overlap.trim_A_kind_%d_closed_some", akind))
+			} else {
+				w.cover("overlap.background_trim_closed_some")
+			}
+		}
+	}
+	both := map[[2]int]int{}
+	for _, g := range []string{gidA, gidB} {
+		seen := map[[2]int]bool{}
+		for _, pc := range ov.closedBy[g] {
+			if !seen[pc] {
+				seen[pc] = true
+				both[pc]++
+			}
+		}
+	}
+	for _, n := range both {
+		if n > 1 {
+			w.cover("overlap.same_connection_closed_by_both_trims")
+			break
+		}
+	}
+	ov.closedBy = map[string][][2]int{}
+	ov.mu.Unlock()
+	if len(pruned) > 0 {
+		w.cover("overlap.first_trim_pruned_before_script2")
+	}
+	w.ovlEvent = ev
+	w.cover(fmt.Sprintf("overlap.executed_with_A_kind_%d", akind))
+	return true
+}
+
+// c14OverlapCase: a prefix that leaves connCount >= high, candidates out of
+// grace (some tied, so that the comparators call Stat), maybe an early-tagged
+// temporary entry and protected peers; the overlap; Disconnected for what was
+// closed and a few more ops.  directed 1 = the schedule of
+// c14_overlap_old_prune_by_id_lost_a_connected_peer (Properties.v).
+func c14OverlapCase(out *verifh.Out, r *verifh.Rand, directed int) {
+	cfg := c14Cfg{low: int64(1 + r.Intn(2)), grace: []int64{0, 5, 10}[r.Intn(3)], res: 1}
+	cfg.high = cfg.low + int64(1+r.Intn(2))
+	akind := int64(12)
+	if directed == 0 && r.Intn(3) == 0 {
+		akind = 13
+	}
+	if directed == 1 {
+		cfg = c14Cfg{low: 1, high: 2, grace: 10, res: 1}
+	}
+	w := c14NewOvl(cfg, r, out)
+	defer w.close()
+	var s1, s2 []c14Op
+	if directed == 1 {
+		for _, p := range []int{4, 5} {
+			w.conns[p][0].dir, w.conns[p][0].streams = network.DirOutbound, 0
+		}
+		w.exec(c14Op{kind: 3, a: 2, b: 0, v: 7})
+		w.exec(c14Op{kind: 1, a: 4, b: 0})
+		w.exec(c14Op{kind: 1, a: 5, b: 0})
+		w.exec(c14Op{kind: 11, a: 11})
+		s2 = []c14Op{{kind: 1, a: 2, b: 0}, {kind: 3, a: 2, b: 1, v: 5}}
+	} else {
+		temp := -1
+		if r.Intn(3) != 0 {
+			temp = r.Intn(c14NP)
+			w.exec(c14Op{kind: 3, a: int64(temp), b: int64(r.Intn(c14NT)), v: int64(1 + r.Intn(9))})
+		}
+		nconn := 0
+		for p := 0; p < c14NP; p++ {
+			if p == temp || r.Intn(5) == 0 {
+				continue
+			}
+			for c := 0; c <= r.Intn(2); c++ {
+				w.exec(c14Op{kind: 1, a: int64(p), b: int64(c)})
+				nconn++
+			}
+			if r.Intn(2) == 0 {
+				w.exec(c14Op{kind: 3, a: int64(p), b: int64(r.Intn(c14NT)), v: int64(r.Intn(3))})
+			}
+			if r.Intn(5) == 0 {
+				w.exec(c14Op{kind: 9, a: int64(p), b: int64(r.Intn(c14NG))})
+			}
+		}
+		if temp >= 0 && r.Intn(4) == 0 {
+			w.exec(c14Op{kind: 9, a: int64(temp), b: 0})
+		}
+		w.exec(c14Op{kind: 11, a: cfg.grace + int64(r.Intn(3))})
+		if r.Intn(3) == 0 {
+			p := r.Intn(c14NP)
+			w.exec(c14Op{kind: 1, a: int64(p), b: int64(2 + r.Intn(2))})
+		}
+		rop := func() c14Op {
+			p := int64(r.Intn(c14NP))
+			switch r.Intn(7) {
+			case 0, 1:
+				return c14Op{kind: 1, a: p, b: int64(r.Intn(c14NC))}
+			case 2:
+				if cs := w.trackedConns(int(p)); len(cs) > 0 {
+					return c14Op{kind: 2, a: p, b: int64(cs[r.Intn(len(cs))])}
+				}
+				return c14Op{kind: 3, a: p, b: int64(r.Intn(c14NT)), v: int64(r.Intn(5))}
+			case 3:
+				return c14Op{kind: 3, a: p, b: int64(r.Intn(c14NT)), v: int64(r.Intn(5))}
+			case 4:
+				return c14Op{kind: 9, a: p, b: int64(r.Intn(c14NG))}
+			case 5:
+				return c14Op{kind: 10, a: p, b: int64(r.Intn(c14NG))}
+			}
+			return c14Op{kind: 4, a: p, b: int64(r.Intn(c14NT))}
+		}
+		for k := r.Intn(3); k > 0; k-- {
+			s1 = append(s1, rop())
+		}
+		if temp >= 0 && r.Intn(2) == 0 {
+			s2 = append(s2, c14Op{kind: 1, a: int64(temp), b: int64(r.Intn(c14NC))}, c14Op{kind: 3, a: int64(temp), b: 1, v: int64(1 + r.Intn(5))})
+		}
+		for k := r.Intn(3); k > 0; k-- {
+			s2 = append(s2, rop())
+		}
+	}
+	if !w.runOverlap(akind, s1, s2) {
+		return
+	}
+	if directed == 1 {
+		out.Cover("overlap.directed_stale_pointer_schedule")
+		if w.cm.GetTagInfo(w.ids[2]) == nil {
+			out.Cover("overlap.directed_REGRESSION_connected_peer_lost")
+		}
+	}
+	// deliver Disconnected for what the trims closed, then go on sequentially
+	for _, pc := range append([][2]int{}, w.pending...) {
+		if r.Intn(6) != 0 {
+			w.exec(c14Op{kind: 2, a: int64(pc[0]), b: int64(pc[1])})
+		}
+	}
+	if directed == 1 {
+		w.exec(c14Op{kind: 2, a: 2, b: 0})
+	}
+	for k := r.Intn(4); k > 0; k-- {
+		p := int64(r.Intn(c14NP))
+		switch r.Intn(4) {
+		case 0:
+			w.exec(c14Op{kind: 1, a: p, b: int64(r.Intn(c14NC))})
+		case 1:
+			if cs := w.trackedConns(int(p)); len(cs) > 0 {
+				w.exec(c14Op{kind: 2, a: p, b: int64(cs[r.Intn(len(cs))])})
+			}
+		case 2:
+			w.exec(c14Op{kind: 3, a: p, b: int64(r.Intn(c14NT)), v: int64(r.Intn(5))})
+		default:
+			w.exec(c14Op{kind: 12})
+		}
+	}
+	out.Cover("cases.overlap")
+	out.Case(w.caseLine())
+}
+
 var c14T *testing.T
 
 func TestVerifNothingC14(t *testing.T) {}
@@ -1340,6 +1913,15 @@ func TestVerifC14(t *testing.T) {
 	}
 	for i := 0; i < nc; i++ {
 		c14ConcurrentCase(out, r)
+	}
+	// two trims in flight (outside the synctest bubble: mock clock)
+	c14OverlapCase(out, r, 1)
+	no := 250
+	if thorough {
+		no = 6000
+	}
+	for i := 0; i < no; i++ {
+		c14OverlapCase(out, r, 0)
 	}
 }
 
@@ -1432,4 +2014,109 @@ func TestVerifC14Replay(t *testing.T) {
 		}
 		out.Case(w.caseLine())
 	})
+}
+
+
+// TestVerifC14ReplayOverlap re-executes one recorded overlap case (kind 3):
+// same prefix, same trims, same scripts, same later operations.
+func TestVerifC14ReplayOverlap(t *testing.T) {
+	out, err := verifh.Open()
+	if err != nil {
+		t.Fatal(err)
+	}
+	defer out.Close()
+	c14T = t
+	in := verifh.ReplayCase()
+	if len(in) < 8 || in[0] != 3 {
+		t.Fatal("no overlap case")
+	}
+	np := int(in[1])
+	cfg := c14Cfg{low: in[2], high: in[3], grace: in[4], res: in[5]}
+	i := 7 + 4*int(in[6])
+	npre := int(in[i])
+	i++
+	readOp := func() (c14Op, bool) {
+		if i >= len(in) {
+			return c14Op{}, false
+		}
+		n := c14OpLen(in[i])
+		if i+n > len(in) {
+			return c14Op{}, false
+		}
+		o := c14Op{kind: in[i]}
+		if n > 1 {
+			o.a = in[i+1]
+		}
+		if n > 2 {
+			o.b = in[i+2]
+		}
+		if n > 3 {
+			o.v = in[i+3]
+		}
+		i += n
+		return o, true
+	}
+	skipObs := func() {
+		i += 1 + 3*np
+		if i < len(in) {
+			i += 1 + 2*int(in[i])
+		}
+	}
+	readOps := func(n int) (res []c14Op) {
+		for k := 0; k < n; k++ {
+			if o, ok := readOp(); ok {
+				res = append(res, o)
+			}
+		}
+		return
+	}
+	var pre, post []c14Op
+	for k := 0; k < npre; k++ {
+		o, ok := readOp()
+		if !ok {
+			t.Fatal("short case")
+		}
+		pre = append(pre, o)
+		skipObs()
+	}
+	if i+4 > len(in) {
+		t.Fatal("short case")
+	}
+	akind := in[i]
+	ns1 := int(in[i+3])
+	i += 4
+	s1 := readOps(ns1)
+	i += 1 + int(in[i]) // pruned
+	i += 1 + int(in[i]) // locked
+	ns2 := int(in[i])
+	i++
+	s2 := readOps(ns2)
+	skipObs()
+	i += 1 + 2*int(in[i]) // closed by A
+	i += 1 + 2*int(in[i]) // closed by the background trim
+	for i < len(in) {
+		o, ok := readOp()
+		if !ok {
+			break
+		}
+		post = append(post, o)
+		skipObs()
+	}
+	w := c14NewOvl(cfg, verifh.NewRand(1), out)
+	defer w.close()
+	if akind == 12 && cfg.low == 1 && cfg.high == 2 && cfg.grace == 10 && len(pre) == 4 && pre[0] == (c14Op{kind: 3, a: 2, b: 0, v: 7}) {
+		for _, p := range []int{4, 5} {
+			w.conns[p][0].dir, w.conns[p][0].streams = network.DirOutbound, 0
+		}
+	}
+	for _, o := range pre {
+		w.exec(o)
+	}
+	if !w.runOverlap(akind, s1, s2) {
+		t.Fatal("the overlap cannot be reproduced: a trim would not reach its sort")
+	}
+	for _, o := range post {
+		w.exec(o)
+	}
+	out.Case(w.caseLine())
 }
